@@ -20,6 +20,30 @@ var c17Texts = [][]byte{
 	[]byte("\u2028\u2029 line seps"), []byte("aab ab b"), []byte("x"), []byte(""),
 	// text that already LOOKS like JSON escapes (searching JSON / source code): backslash + u003c etc.
 	[]byte("lit \\u003c \\u003e \\u0026 \\u2028 \\n \\\" \\\\ \\/ end"), []byte("{\"k\":\"v\\u0041\\\"\"}"),
+	// invisible and unusual code points of every plane: format characters (BMP and astral: tag characters, musical and
+	// hieroglyph controls), C1 controls, no-break space, non-characters, private use, the last code point
+	[]byte("tag \U000E0067\U000E0062\U000E007F flag \U0001F3F4\U000E0067 zwj a\u200db bom \ufeff shy \u00ad rlo \u202e x"),
+	[]byte("astral \U0001D173 \U00013430 \U0001BCA0 \U000110BD \U0010FFFF \U000F0000 \uFFFE \uFFFF \u0080 \u0085 \u009f \u00a0 \ue000 end"),
+}
+
+// c17RandomText: code points drawn from every plane and category boundary the encoders special-case.
+func c17RandomText(rng *gen.Rng) []byte {
+	ranges := [][2]rune{{0x00, 0x1f}, {0x20, 0x7e}, {0x7f, 0x9f}, {0xa0, 0xff}, {0x2000, 0x206f}, {0xd7f0, 0xd7ff}, {0xe000, 0xe010}, {0xfe00, 0xfe0f}, {0xfff0, 0xffff},
+		{0x10000, 0x10010}, {0x1d160, 0x1d180}, {0x1f300, 0x1f3ff}, {0xe0000, 0xe007f}, {0xf0000, 0xf0010}, {0x10fff0, 0x10ffff}}
+	var out []rune
+	n := 8 + rng.Intn(16)
+	for i := 0; i < n; i++ {
+		rg := ranges[rng.Intn(len(ranges))]
+		c := rg[0] + rune(rng.Intn(int(rg[1]-rg[0])+1))
+		if c == 0 {
+			c = ' '
+		}
+		out = append(out, c)
+		if rng.Chance(1, 3) {
+			out = append(out, ' ')
+		}
+	}
+	return []byte(string(out))
 }
 
 var c17Programs = []string{
@@ -87,15 +111,23 @@ func C17(r *drv.Run) {
 	if !quick(r) {
 		n = 80000
 	}
-	r.Rule = "result lists empty / one / many from find and replace commands, flat captures and named-loop (nested) variables, produced by fixed programs that capture arbitrary bytes and by the any-program generator, over texts with quotes, backslashes, control bytes, <>&, U+2028/2029, multi-byte UTF-8 and invalid UTF-8. Oracle: Json() and FormattedJson() return without panic, json.Valid, decode to equal documents, one object per match whose fields equal the in-memory match (replacement present iff the match has one); exact string equality is demanded where the in-memory strings are valid UTF-8. Non-trivial = a result list with >= 1 match rendered and decoded; distinct by (program, text)."
+	r.Rule = "result lists empty / one / many from find and replace commands, flat captures and named-loop (nested) variables, produced by fixed programs that capture arbitrary bytes and by the any-program generator, over texts with quotes, backslashes, control bytes, <>&, U+2028/2029, multi-byte UTF-8, invalid UTF-8, and code points of every plane (format characters incl. astral tag characters, C1 controls, non-characters, private use, U+10FFFF; fixed and seeded random). Oracle: Json() and FormattedJson() return without panic, json.Valid, decode to equal documents, one object per match whose fields equal the in-memory match (replacement present iff the match has one); exact string equality is demanded where the in-memory strings are valid UTF-8. Non-trivial = a result list with >= 1 match rendered and decoded; distinct by (program, text)."
 	r.Assumptions = []string{"strings that are not valid UTF-8 cannot round-trip through JSON; for those only validity, document equality of the two renderings and all non-string fields are demanded"}
 	fixed := len(c17Programs)
-	r.Exec(fixed+n, drv.ExecOpts{Batch: 100}, func(i int) *drv.Item {
+	r.Exec(6*fixed+n, drv.ExecOpts{Batch: 100}, func(i int) *drv.Item {
 		rng := gen.Derive(r.Seed, "C17", i)
 		var src string
 		texts := c17Texts
 		if i < fixed {
 			src = c17Programs[i]
+			texts = append(append([][]byte{}, c17Texts...), c17RandomText(rng), c17RandomText(rng), c17RandomText(rng))
+		} else if i < 6*fixed {
+			// the fixed programs again, over seeded texts of unusual code points
+			src = c17Programs[i%fixed]
+			texts = nil
+			for k := 0; k < 12; k++ {
+				texts = append(texts, c17RandomText(rng))
+			}
 		} else {
 			p := gen.AnyProgram(rng, i)
 			src = gen.RenderProgram(p)
